@@ -137,7 +137,14 @@ func checkC08(c *Check) {
 					}
 					if hc, ok := rv.(*ssa.Call); ok {
 						if f := staticCallee(hc); f != nil && p.IsRepoFn(f) {
-							c.Undecided(key+":checked-source", r1, p.InstrPos(ci), "destination is produced by helper "+fnName(f)+"; the rule does not follow addresses through helpers")
+							// (addr, err) helper: used only behind its nil-error edge, and every nil-error
+							// return of the helper hands back the override (behind its non-empty test) or a
+							// value that passed checkAddr(value) == nil inside the helper
+							if good, decided := c08AddrHelper(p, f, hc, ci, fOverride, checkAddr); decided {
+								c.Req(good, key+":checked-source", r1, p.InstrPos(ci), "the address helper "+fnName(f)+" can hand back an address that neither is the non-empty override nor passed checkAddr(that address) == nil, or its result is used without testing its error")
+								continue
+							}
+							c.Undecided(key+":checked-source", r1, p.InstrPos(ci), "destination is produced by helper "+fnName(f)+"; the rule does not follow addresses through helpers of this shape")
 							continue
 						}
 					}
@@ -732,4 +739,86 @@ func alwaysErrors(fn *ssa.Function) bool {
 		}
 	})
 	return ok && n > 0
+}
+
+// c08AddrHelper decides the checked-source rule for a destination produced by
+// a helper `func (e) h(...) (string, error)` called at hc, whose address result
+// feeds the WriteTo at use. decided=false when the helper has another shape.
+func c08AddrHelper(p *Prog, h *ssa.Function, hc *ssa.Call, use ssa.Instruction, fOverride *types.Var, checkAddr *ssa.Function) (good, decided bool) {
+	res := h.Signature.Results()
+	if res.Len() != 2 || !types.Identical(res.At(1).Type(), types.Universe.Lookup("error").Type()) {
+		return false, false
+	}
+	errv := extractOf(hc, 1)
+	if errv == nil {
+		return false, true // error discarded
+	}
+	// the use sits behind err == nil
+	if !guardedBy(use, func(cond ssa.Value, pol bool) bool {
+		x, isNil, ok := nilTest(cond, pol)
+		return ok && isNil && resolve(x) == errv
+	}) {
+		return false, true
+	}
+	good = true
+	n := 0
+	allInstrs(h, func(in ssa.Instruction) {
+		r, ok := in.(*ssa.Return)
+		if !ok {
+			return
+		}
+		rr := retResults(r)
+		if rr == nil || len(rr) != 2 {
+			return
+		}
+		if !isNilConst(rr[1]) {
+			// error return; a φ / variable error is not modelled
+			if _, isC := rr[1].(*ssa.Const); !isC {
+				if _, isMI := rr[1].(*ssa.MakeInterface); !isMI {
+					if _, isCall := resolve(rr[1]).(*ssa.Call); !isCall {
+						if _, isEx := resolve(rr[1]).(*ssa.Extract); !isEx {
+							good = false
+						}
+					}
+				}
+			}
+			// returned together with an error the caller tests: the address is not used
+			nonNil := guardedBy(r, func(cond ssa.Value, pol bool) bool {
+				x, isNil, ok := nilTest(cond, pol)
+				return ok && !isNil && resolve(x) == resolve(rr[1])
+			})
+			if _, isMI := rr[1].(*ssa.MakeInterface); !isMI && !nonNil {
+				good = false
+			}
+			return
+		}
+		n++
+		v := rr[0]
+		if isLoadOfField(v, fOverride) {
+			if !guardedBy(r, func(cond ssa.Value, pol bool) bool {
+				x, nonEmpty, ok := strEmptyTest(cond, pol)
+				return ok && nonEmpty && isLoadOfField(x, fOverride)
+			}) {
+				good = false
+			}
+			return
+		}
+		if !guardedBy(r, func(cond ssa.Value, pol bool) bool {
+			x, isNil, ok := nilTest(cond, pol)
+			if !ok || !isNil {
+				return false
+			}
+			call, ok := resolve(x).(*ssa.Call)
+			if !ok || staticCallee(call) != checkAddr {
+				return false
+			}
+			return sameValue(call.Call.Args[1], v)
+		}) {
+			good = false
+		}
+	})
+	if n == 0 {
+		return false, false
+	}
+	return good, true
 }
